@@ -18,6 +18,7 @@ import (
 	"github.com/wundergraph/graphql-go-tools/v2/pkg/astnormalization"
 	"github.com/wundergraph/graphql-go-tools/v2/pkg/astvalidation"
 	"github.com/wundergraph/graphql-go-tools/v2/pkg/engine/datasource/graphql_datasource"
+	"github.com/wundergraph/graphql-go-tools/v2/pkg/engine/datasource/introspection_datasource"
 	"github.com/wundergraph/graphql-go-tools/v2/pkg/engine/plan"
 	"github.com/wundergraph/graphql-go-tools/v2/pkg/engine/postprocess"
 	"github.com/wundergraph/graphql-go-tools/v2/pkg/engine/resolve"
@@ -152,8 +153,15 @@ func NewPlanner(lab *fedlab.Lab, opts fedlab.EngineOptions) (*Planner, error) {
 		p.conf.DataSources = append(p.conf.DataSources, ds)
 	}
 	p.conf.Fields = cfg.FieldConfigurations()
-	// engine.NewConfiguration defaults
-	p.conf.DefaultFlushIntervalMillis = 500
+	// engine.NewConfiguration default + what NewExecutionEngine adds (introspection data sources)
+	p.conf.DefaultFlushIntervalMillis = 1000
+	if icf, err := introspection_datasource.NewIntrospectionConfigFactory(lab.Schema.Document()); err == nil {
+		p.conf.DataSources = append(p.conf.DataSources, icf.BuildDataSourceConfigurations()...)
+		p.conf.Fields = append(p.conf.Fields, icf.BuildFieldConfigurations()...)
+	} else {
+		cancel()
+		return nil, err
+	}
 	if opts.MultiFetch {
 		p.conf.EnableMultiFetch = true
 		p.ppOpts = append(p.ppOpts, postprocess.EnableMultiFetch())
